@@ -9,22 +9,27 @@ Local Open Scope Z_scope.
 
 (* ------------------------------------------------------------------ who can hand out a lazybreak *)
 
-Lemma run_else_not_lazy elsef he saved e acc trips : snd (run_else elsef he saved e acc trips) <> SLazy.
+(* (a control instruction in a for-else branch is handed on by the loop: a lazybreak there is a
+   lazybreak of the loop item) *)
+Lemma run_else_not_lazy elsef he saved e acc trips :
+  (forall e0, snd (elsef e0) <> SLazy) -> snd (run_else elsef he saved e acc trips) <> SLazy.
 Proof.
-  unfold run_else. destruct trips; [|discriminate]. destruct he; [|discriminate].
-  destruct (elsef e) as [[o e1] s]. destruct s; discriminate.
+  intros He. unfold run_else. destruct trips; [|discriminate]. destruct he; [|discriminate].
+  specialize (He e). destruct (elsef e) as [[o e1] s]. cbn [snd] in He. destruct s; try discriminate. congruence.
 Qed.
 
 Lemma cloop_ref_not_lazy bodyf elsef he saved sep var cop step limv :
+  (forall e0, snd (elsef e0) <> SLazy) ->
   forall fuel e acc trips cur, snd (cloop_ref bodyf elsef he saved sep var cop step limv fuel e acc trips cur) <> SLazy.
 Proof.
+  intros He.
   assert (FIN : forall e acc trips cur,
     snd (let e1 := loop_done e 0 in
          let e2 := match trips with O => e1 | _ => env_set var (VInt cur) true e1 end in
          let '(o, e3, s) := run_else elsef he saved (set_ebrk (e_brk e2) e2) acc trips in
          (o, set_ebrk (Z.max (e_brk e3) saved) e3, s)) <> SLazy).
   { intros e acc trips cur. cbv zeta.
-    match goal with |- context [run_else ?a ?b ?c ?d ?f ?g] => pose proof (run_else_not_lazy a b c d f g) as R;
+    match goal with |- context [run_else ?a ?b ?c ?d ?f ?g] => pose proof (run_else_not_lazy a b c d f g He) as R;
       destruct (run_else a b c d f g) as [[o e3] s] end. exact R. }
   induction fuel as [|fuel IH]; intros e acc trips cur; cbn [cloop_ref];
     (destruct (cloop_allows cop cur limv) as [allow|]; [|discriminate]);
@@ -36,10 +41,11 @@ Proof.
 Qed.
 
 Lemma rloop_ref_not_lazy bodyf elsef he saved sep key val :
+  (forall e0, snd (elsef e0) <> SLazy) ->
   forall elems e acc calls trips, snd (rloop_ref bodyf elsef he saved sep key val elems e acc calls trips) <> SLazy.
 Proof.
-  induction elems as [|[kb x] r IH]; intros e acc calls trips; cbn [rloop_ref].
-  - match goal with |- context [run_else ?a ?b ?c ?d ?f ?g] => pose proof (run_else_not_lazy a b c d f g) as R;
+  intros He. induction elems as [|[kb x] r IH]; intros e acc calls trips; cbn [rloop_ref].
+  - match goal with |- context [run_else ?a ?b ?c ?d ?f ?g] => pose proof (run_else_not_lazy a b c d f g He) as R;
       destruct (run_else a b c d f g) as [[o e3] s] end. exact R.
   - match goal with |- context [if ?b then _ else _] => destruct b end; [discriminate|].
     destruct (bodyf _) as [[o e1] s]. destruct s; try apply IH; discriminate.
@@ -53,6 +59,8 @@ Fixpoint lazy_free (a : ast) : bool :=
   | ASwitch _ cases dflt _ => forallb lazy_free cases && forallb lazy_free dflt
   | ACase _ body => forallb lazy_free body
   | ARegion _ body => forallb lazy_free body
+  | ACLoop _ _ _ _ _ _ _ _ _ els _ => forallb lazy_free els
+  | ARLoop _ _ _ _ _ els _ => forallb lazy_free els
   | _ => true
   end.
 
@@ -79,6 +87,9 @@ Section Lazy.
   Proof.
     intros H e acc. rewrite seq_with_gseq. destruct (gseq_no_lazy l H e acc) as [E N]. rewrite E. exact N.
   Qed.
+
+  Lemma top_no_lazy l : Forall never_lazy l -> forall e acc, snd (top_with re l e acc) <> SLazy.
+  Proof. intros H e acc. rewrite top_with_gseq. exact (proj2 (gseq_no_lazy l H e acc)). Qed.
 
   Lemma print_not_lazy e letters path mods pfx sfx raw : snd (ref_print e letters path mods pfx sfx raw) <> SLazy.
   Proof.
@@ -131,14 +142,16 @@ Section Lazy.
       destruct arg; apply cases_not_lazy; try assumption; apply ALL; assumption.
     - intros e. cbn. discriminate.
     - inversion E0; subst. apply ALL; assumption.
-    - intros e. cbn [ref_eval].
+    - cbn [lazy_free] in H1. pose proof (top_no_lazy els (ALL _ H0 H1)) as TE.
+      intros e. cbn [ref_eval].
       destruct (bound_of _ il init) as [[v0|]|x]; try discriminate;
         destruct (bound_of _ ll lim) as [[lv|]|y]; try discriminate.
-      apply cloop_ref_not_lazy.
-    - intros e. cbn [ref_eval]. destruct (split_dot src); [discriminate|].
-      destruct (env_find _ _); [|apply rloop_ref_not_lazy].
+      apply cloop_ref_not_lazy. intros ee. apply TE.
+    - cbn [lazy_free] in H1. pose proof (top_no_lazy els (ALL _ H0 H1)) as TE.
+      intros e. cbn [ref_eval]. destruct (split_dot src); [discriminate|].
+      destruct (env_find _ _); [|apply rloop_ref_not_lazy; intros ee; apply TE].
       match goal with |- context [match ?x with Some _ => _ | None => _ end] => destruct x end;
-        [apply rloop_ref_not_lazy|discriminate].
+        [apply rloop_ref_not_lazy; intros ee; apply TE|discriminate].
     - cbn [lazy_free] in H. intros e. cbn [ref_eval]. destruct lz; [discriminate H|].
       destruct hc; [|discriminate]. destruct (ref_cond flits e c) as [[|]| |]; discriminate.
     - intros e. cbn [ref_eval]. destruct hc; [|discriminate]. destruct (ref_cond flits e c) as [[|]| |]; discriminate.
